@@ -2,22 +2,27 @@
 # For every seeded change: confirm in a scratch worktree that (1) the patch applies to /repo HEAD, (2) the demo fails with it and
 # passes without it, (3) the existing suite still passes with it; then (4) run the registered quick check(s) of its property on
 # /repo with the patch applied (and revert).  Results -> seeded/<id>/verified.json
+# A seed whose meta.json says "kind": "benign" is a behaviour-preserving refactoring: no demo, every check must exit 0 with it.
 cd "$(dirname "$0")/.."
 only=${1:-}
 git -C /repo diff --quiet || { echo "/repo dirty"; exit 9; }
 WT=/tmp/wt_verify
 for d in seeded/*/; do
   id=$(basename $d); [ -n "$only" ] && [[ "$id" != *"$only"* ]] && continue
+  [ -n "$SKIP" ] && [[ "$id" =~ $SKIP ]] && continue   # SKIP: a regex on the seed id, e.g. -r[34]-
   prop=${id%%-*}
   git -C /repo worktree remove --force $WT 2>/dev/null; git -C /repo worktree add -q --detach $WT HEAD
   res_apply=fail; demo_with=?; demo_without=?; tests=?
+  benign=no; grep -q '"kind": "benign"' $d/meta.json && benign=yes
   if git -C $WT apply $PWD/$d/patch.diff 2>/dev/null; then
     res_apply=ok
-    cp $d/demo.py $WT/_demo.py
-    (cd $WT && timeout 600 /venv/bin/python _demo.py $WT >/dev/null 2>&1); demo_with=$?
+    if [ $benign = no ]; then
+      cp $d/demo.py $WT/_demo.py
+      (cd $WT && timeout 600 /venv/bin/python _demo.py $WT >/dev/null 2>&1); demo_with=$?
+    else demo_with=n/a; demo_without=n/a; fi
     tests=$(cd $WT && timeout 1500 /venv/bin/python -m pytest -q -p no:cacheprovider -x unit_scaling/tests -k "not test_analysis" 2>&1 | tail -1)
     git -C $WT checkout -- unit_scaling
-    (cd $WT && timeout 600 /venv/bin/python _demo.py $WT >/dev/null 2>&1); demo_without=$?
+    [ $benign = no ] && { (cd $WT && timeout 600 /venv/bin/python _demo.py $WT >/dev/null 2>&1); demo_without=$?; }
   fi
   git -C /repo worktree remove --force $WT
   caught=""
